@@ -25,19 +25,19 @@ CHECKS = {
          'Hull, geometric contraction, fault-is-no-op and never-poisoned hold in every model state (windows 1..4, depth 6) and on every recorded poll (windows 1..50) within the stated projection slack.'),
  'C09': (MC, '6 (C09)', 'TLC exhaustive check of Daemon.tla with fault actions (every placement of up to 2 faults) + TLC monitoring of real closed loops (sensor + monitor + curve + controller.Run + plant) with enumerated injected faults, run in child processes so that a crash is an observation',
          'All single faults (kind x backend combination x curve type x cycle index) in the quick tier, plus pairs in the thorough tier; no-crash and continue-or-hand-back evaluated on every recorded state.'),
- 'C11': (MC, '6 (C11)', 'TLC check of Config.tla (validator as implemented vs well-formed / evaluable / documented over enumerated abstract configurations) + TLC validation of records of generated YAML configurations taken through the real loader, validator, instantiation and curve evaluation (child process, crash = observation)',
+ 'C11': (MC, '6 (C11)', 'TLC check of Config.tla (validator as implemented vs well-formed / evaluable / documented over enumerated abstract configurations) + TLC validation of records of generated YAML configurations taken through the real loader, validator, instantiation and curve evaluation (child process, crash = observation), and of a further sample taken through the real command `fan2go config validate` and the real daemon (child processes on a fake hwmon tree)',
          'Exhaustive over the abstract two-curve universe and all 3-4 node function graphs; sampled for 1..8 curve configurations through the real YAML path.'),
- 'C12': (MC, '6 (C12)', 'TLC check of PwmMap.tla (definition) + TLC validation of request->written vectors recorded from the real ExtractKeysWithDistinctValues / FindClosest / controller.setPwm for all maps over a key universe and random full-size maps',
+ 'C12': (MC, '6 (C12)', 'TLC check of PwmMap.tla (definition) + TLC validation of request->written vectors recorded from the real ExtractKeysWithDistinctValues / FindClosest / controller.setPwm for all maps over a key universe and random full-size maps, and of the real computePwmMap with a configured map, a stored map, both or neither (hwmon / file / cmd fans)',
          'Exhaustive over all maps of the key universe (4^6 quick, 4^8 thorough) x all requests -50..305.'),
- 'C13': (MC, '6 (C13)', 'TLC check of FanLimits.tla (definition and setter semantics, repeated attachment) + TLC validation of records of the real NewFan / AttachFanRpmCurveData / getters (conformance with the model and the C13 formulas)',
+ 'C13': (MC, '6 (C13)', 'TLC check of FanLimits.tla (definition and setter semantics, repeated attachment) + TLC validation of records of the real NewFan / AttachFanRpmCurveData / getters (conformance with the model and the C13 formulas) + TLC monitoring of real analyses (controller.Run: sweep, RPM-curve measurement, attachment) behind threshold plants and quantising / rounding / scaled registers',
          'Exhaustive over a 5-key x 5-RPM data universe x 8 configured combinations x neverStop, plus random realistic data with second attachments.'),
  'C14': (MC, '6 (C14)', 'TLC exhaustive check of Persist.tla (operation sequences, damage, crash during save) + TLC trace validation of operation sequences executed on the real persistence over a real bbolt file with full read-back after every step and of workers killed with SIGKILL inside a save',
          'Every returned value of every operation and read-back is compared with the model; crash instants are sampled.'),
  'C15': (MC, '6 (C15)', 'TLC exhaustive check of Daemon.tla over all start/stop/reset/init sequences + TLC monitoring of the real controller.Run restarted on one bbolt database with CLI bodies in between',
          'Sweeps and RPM-curve measurements between process start and first regulation cycle are counted from hook events; reuse, config-map-no-sweep and at-most-once hold in every model state and on every recorded history. The README promise for minPwm+maxPwm is a recorded known finding (D10).'),
- 'C16': (MC, '6 (C16)', 'TLC exhaustive check of Daemon.tla (mutex, all interleavings of 2-3 fans) + TLC monitoring of real controllers of 2-4 fans in real time (option false) and in a bubble (option true, overlap observed)',
+ 'C16': (MC, '6 (C16)', 'TLC exhaustive check of Daemon.tla (mutex, all interleavings of 2-3 fans) + TLC monitoring of real controllers of 2-4 fans in real time (option false) and in a bubble (option true, overlap observed), and of the real daemon process started on a configuration file with the option false',
          'Mutual exclusion of whole initialisation sequences over all interleavings in the model; real schedules with random start delays and plants of differing settle times.'),
- 'C17': (MC, '6 (C17)', 'TLC check of HwmonBind.tla (order independence over all permutations) + TLC validation of records of the real start-up binding on fake hwmon trees (device really read and written on first use)',
+ 'C17': (MC, '6 (C17)', 'TLC check of HwmonBind.tla (order independence over all permutations) + TLC validation of records of the real start-up binding on fake hwmon trees (device really read and written on first use); `fan2go detect` as an observer of the same trees (drift only)',
          'Sampled trees and selectors (1..4 chips, channel and index subsets, random enumeration order) against the definitional binding.'),
  'C18': (MC, '6 (C18)', 'TLC validation of records of real executions over the complete owner x group x mode x symlink space against ExecPerm.tla (plus re-check sequences and the config-file rule)',
          'Exhaustive: all 4096 combinations are really executed (or refused) on real files; a marker file tells whether the script ran.'),
